@@ -395,7 +395,12 @@ static Verdict c17_check(const KV &c, Ctx &ctx) {
     bool skey_set = false;
     unsigned char skey[8] = {0};
     struct Obj { void *p; bool set; unsigned char key[8]; } objs[2];
-    for (auto &o : objs) { o.p = calloc(1, 32768 + 16); o.set = false; }
+    for (auto &o : objs) {
+      // the caller's object may hold anything (previous use, uninitialised heap) when setkey_r is called
+      o.p = malloc(32768 + 16);
+      for (size_t k = 0; k < 32768 + 16; k++) ((unsigned char *)o.p)[k] = garb.empty() ? 0 : (unsigned char)garb[k % garb.size()];
+      o.set = false;
+    }
     size_t objoff[2] = {garb.empty() ? 0u : (size_t)(garb[0] & 15), garb.size() < 2 ? 9u : (size_t)(garb[1] & 15)};
     size_t i = 0;
     int nenc = 0, ncrypt_between = 0;
